@@ -78,7 +78,23 @@ def top_user_frame(g):
     return g["frames"][0][0] if g["frames"] else "?"
 
 
+def handler_installed(pid, signo=signal.SIGUSR1):
+    """True iff the process currently catches signo (SigCgt in /proc/<pid>/status). A Go process that has not
+    yet run the hook's init() (loaded box, still starting up) would be killed by SIGUSR1."""
+    try:
+        with open(f"/proc/{pid}/status") as f:
+            for line in f:
+                if line.startswith("SigCgt:"):
+                    mask = int(line.split()[1], 16)
+                    return bool(mask & (1 << (int(signo) - 1)))
+    except (OSError, ValueError):
+        pass
+    return False
+
+
 def _take_dump(pid, path, timeout=3.0):
+    if not handler_installed(pid):
+        return None
     try:
         before = os.path.getsize(path)
     except OSError:
